@@ -20,6 +20,67 @@ CLAIMS = {
               "through the real resamplers."),
         note=NOTE + "Not proved: the classical error bound for sinusoids and float rounding ('to rounding').",
         ref="3.8"),
+
+    "C09": dict(
+        technique="Lean 4 proof over an effect table regenerated from the Rust source + law-free storage-shape invariant; counting allocator as the tie",
+        text=("Theorems: (1) the effect table the translator's call-graph pass emits from /repo/src on every run (functions reachable by "
+              "name from each of the 11 real-time methods of each of the 7 types; allocating constructs in them, log macros removed) has no "
+              "allocation site on any real-time path while the wrappers do allocate (decide over the table); (2) law-free: no operation of the "
+              "asynchronous model changes the length of any internal buffer after any history. Partial: allocation itself happens in compiled "
+              "code; the tie is the harness's counting global allocator, which must read (0,0,0) around every real-time call of every generated history."),
+        note=NOTE + "Not modelled: allocation inside realfft/rustfft and std (observed by the counter only); the allocator.",
+        ref="3.9"),
+    "C10": dict(
+        technique="Lean 4 proof (law-free state equality, induction over operation lists) + twin-history correspondence",
+        text=("Theorem for every arithmetic instance (IEEE included): after ANY list of operations (processing calls that succeed, fail or crash, "
+              "ratio changes with/without ramp, chunk-size changes, resets) reset() yields exactly the constructor's state - equality of complete "
+              "model states - hence identical getters and identical futures. Asynchronous types proved; FFT types by the FFT control lemmas. "
+              "Oracle: used-then-reset instance vs fresh twin on the real crate, bit for bit."),
+        note=NOTE,
+        ref="3.10"),
+    "C12": dict(
+        technique="Lean 4 proof (law-free decision skeleton + exact range equivalence over Q) + boundary oracle against exact rational decisions",
+        text=("Theorems: the setter is Ok iff the range test holds, Err leaves the state untouched, Ok changes exactly target (ratio unless ramping, "
+              "needed size for fixed-out); relative form is literally set_resample_ratio(orig*x); chunk-size control accepts exactly 1..=max on the "
+              "sinc types, ChunkSizeNotAdjustable/SyncNotAdjustable elsewhere; in exact arithmetic the test is orig/max <= r <= orig*max with both "
+              "bounds included and non-positive values rejected. Oracle: real setters at the bounds, their f64 neighbours, NaN, infinities, "
+              "subnormals, all usize chunk sizes, decided against exact rationals (finding D9 inside a 2^-50 band)."),
+        note=NOTE + "The f64 evaluation of new/orig near the bounds is not exact (known finding D9).",
+        ref="3.12"),
+    "C13": dict(
+        technique="Lean 4 proof (law-free decision list, dead-state argument) + malformed-call twin histories",
+        text=("Theorems for every arithmetic instance: validate_buffers is a decision list (first failing test in source order determines variant "
+              "and fields, firstShort finds the first short active channel); a wrong-length mask is an Err; a call that returns Err leaves every "
+              "field but the stored mask unchanged and the stored mask is dead state (no operation's result depends on it), so a following call "
+              "behaves as if the failed call never happened; finishIn/finishOut never return Err; constructor errors exactly for non-positive "
+              "ratio, max < 1, zero rates. Oracle: malformed calls of every shape injected into twin histories on the real crate."),
+        note=NOTE + "Constructors accept NaN ratios (NaN <= 0 is false): outside the statement's 'non-positive', noted in DESIGN.",
+        ref="3.13"),
+    "C15": dict(
+        technique="Lean 4 proof (lane-level kernel models = dot product over any commutative semiring) + bit-exact kernel correspondence",
+        text=("Theorems over any commutative semiring on lane-level models of all seven kernels (scalar, AVX f32/f64, SSE f32/f64, NEON f32/f64): "
+              "each equals the plain dot product of wave[index..index+len) with the taps, pack_sincs is a bijection of taps onto lanes, all "
+              "kernels agree with the scalar one, each reads exactly the window (congruence theorem + explicit read lists). Tie: the scalar and "
+              "SSE lane models reproduce the real kernels bit for bit on tables read out of the crate; AVX within the FMA tolerance; real tables "
+              "identical across kernels and equal to the model's make_sincs; NaN-poisoned waves prove nothing outside the window is read."),
+        note=NOTE + "NEON models are read from the source, not executed (x86-64 host). The ulp bound is measured, not proved.",
+        ref="3.15"),
+    "C16": dict(
+        technique="Lean 4 proof (law-free, over an abstract core) + wrapper-vs-core twin histories",
+        text=("Theorems over an abstract process_into_buffer: process() calls the core with output_frames_next()-sized buffers for the channels "
+              "the mask keeps and returns exactly the frames written (empty vectors for masked channels); process_partial_into_buffer(Some x) is "
+              "the core on x cut/padded with zeros to input_frames_next(), None is an all-zero chunk, repeated None calls are zero feeding; "
+              "process_partial is process after padding. Oracle: wrapper vs core twins on all seven real types, also through dyn VecResampler."),
+        note=NOTE,
+        ref="3.16"),
+    "C18": dict(
+        technique="Lean 4 proof (product-machine theorem, induction over schedules) + 16-thread migration stress as the tie",
+        text=("Theorem: for any deterministic step function and any schedule interleaving any number of instances, the observations of instance i "
+              "equal its solo run (no shared state at model level); instantiated for the resampler models. Partial: a data race lives in the "
+              "runtime; the tie runs every generated history alone and then all of them concurrently on 16 threads with sessions migrating "
+              "between threads every 1-3 calls (constructors included) and demands identical observation streams, and the solo stream equals the model's."),
+        note=NOTE + "The OS scheduler and memory model are outside the model.",
+        ref="3.18"),
 }
 
 UNDER_CONSTRUCTION = "check under construction in this session (framework being built; see DESIGN.md section 3)"
